@@ -94,3 +94,13 @@ Theorem C04_c_recurrence_texts : forall r, In r fill_regions ->
   (fr_kernel r = "dtw_warping_paths_ndim" \/ fr_kernel r = "dtw_warping_paths_ndim_euclidean")%string ->
   fr_recurrence r = "MIN3:W+p.penalty,W,W+p.penalty;store=d+MIN3"%string.
 Proof. exact distance_kernels_use_min3. Qed.
+
+(* the executable form of that array (materialised rows; what the correspondence check compares with the array the C
+   kernel returns, slot by slot) holds the matrix just the same *)
+Theorem C04_c_fill_rows_store_the_matrix : forall l1 l2 window0, (1 <= l1)%Z -> (1 <= l2)%Z -> (0 <= window0)%Z ->
+  forall (d : nat -> nat -> cost) pen p1b p2b,
+  (forall ri ci : nat, (Z.of_nat ri < l1)%Z ->
+     ~ (blo l1 l2 window0 (Z.of_nat ri) <= Z.of_nat ci < bhi l1 l2 window0 (Z.of_nat ri))%Z -> d ri ci = Inf) ->
+  forall i, (Z.of_nat i <= l1)%Z ->
+  holds l1 l2 window0 d pen p1b p2b i (of_list (stored_rows l1 l2 window0 d pen p1b p2b i)).
+Proof. exact stored_rows_hold. Qed.
